@@ -355,6 +355,29 @@ func (eapAkaPrime *EapAkaPrime) Unmarshal(rawData []byte) error {
 				}
 				return errors.Wrapf(err, "EAP-AKA' Unmarshal(): read %s attribute/value failed", attr.attrType)
 			}
+		default:
+			// AT_CHECKCODE and every other attribute: two reserved bytes followed by
+			// the value, (4 * length) bytes in total
+			if attr.length == 0 {
+				return errors.Errorf("EAP-AKA' Unmarshal(): %s attribute length must not be 0", attr.attrType)
+			}
+
+			reserved := make([]byte, EapAkaAttrReservedLen)
+			n, err = io.ReadFull(bufReader, reserved)
+			if n != EapAkaAttrReservedLen || err != nil {
+				return errors.Errorf("EAP-AKA' Unmarshal(): incomplete reserved bytes for %s", attr.attrType)
+			}
+			attr.reserved = binary.BigEndian.Uint16(reserved)
+
+			valLen := 4*int(attr.length) - EapAkaAttrTypeLen - EapAkaAttrLengthLen - EapAkaAttrReservedLen
+			attr.value = make([]byte, valLen)
+			n, err = io.ReadFull(bufReader, attr.value)
+			if n != valLen || err != nil {
+				return errors.Errorf("EAP-AKA' Unmarshal(): %s attribute value length mismatch, "+
+					"expect %d bytes but got %d bytes",
+					attr.attrType, valLen, n,
+				)
+			}
 		}
 
 		// Set attribute
